@@ -20,21 +20,27 @@ EXTENDS ManagerDisc, Sequences, TLC, Json, IOUtils
 (* every callback of the new one.  Where the one ends and the other begins is *)
 (* not observable, so it is inferred (TSwitch, a silent step).                *)
 VARIABLES l, active, disc, pend,   \* pend: controller |-> its call in progress
-          inc                      \* target |-> number of its current incarnation (a new one per successful Add)
+          inc,                     \* target |-> number of its current incarnation (a new one per successful Add)
+          rt,                      \* target |-> its effective receive timeout in ms (0 = none), from the driver's "tcfg" marker
+          cause                    \* target |-> since its last Reset something has happened that may end a session of the target
 
 Trace == ndJsonDeserialize(IOEnv.TRACE)
-tvars == <<l, active, disc, pend, inc>>
+tvars == <<l, active, disc, pend, inc, rt, cause>>
 Ev == Trace[l]
 St(name) == l <= Len(Trace) /\ Trace[l].ev = name /\ l' = l + 1
 
 Put(f, k, v) == [x \in DOMAIN f \cup {k} |-> IF x = k THEN v ELSE f[x]]
 Get(f, k) == IF k \in DOMAIN f THEN f[k] ELSE 0
 Busy(c) == c \in DOMAIN pend /\ pend[c].op # "none"
+CauseOf(t) == t \in DOMAIN cause /\ cause[t]
 None == [op |-> "none", t |-> "", was |-> FALSE, rem |-> FALSE, sw |-> FALSE, inc0 |-> 0]
 
-TInit == l = 1 /\ active = {} /\ disc = <<>> /\ pend = <<>> /\ inc = <<>> /\ TLCSet(1, 1)
+TInit == l = 1 /\ active = {} /\ disc = <<>> /\ pend = <<>> /\ inc = <<>> /\ rt = <<>> /\ cause = <<>> /\ TLCSet(1, 1)
 
-TReset == St("reset") /\ active' = {} /\ disc' = <<>> /\ pend' = <<>> /\ inc' = <<>>
+TReset == St("reset") /\ active' = {} /\ disc' = <<>> /\ pend' = <<>> /\ inc' = <<>> /\ rt' = <<>> /\ cause' = <<>>
+
+(* the driver announces the receive timeout in force for a target before adding it *)
+TCfg == St("tcfg") /\ rt' = Put(rt, Ev.t, Ev.rt) /\ UNCHANGED <<active, disc, pend, inc, cause>>
 
 (* callbacks may start as soon as Add has been invoked                      *)
 TInv ==
@@ -49,6 +55,9 @@ TInv ==
        /\ IF Ev.op = "Add" /\ Ev.t \notin active
           THEN active' = active \cup {Ev.t} /\ disc' = Put(disc, Ev.t, D0) /\ inc' = Put(inc, Ev.t, Get(inc, Ev.t) + 1)
           ELSE UNCHANGED <<active, disc, inc>>
+       \* a Reconnect or Remove may end the running session of its target
+       /\ cause' = IF Ev.op \in {"Reconnect", "Remove"} THEN Put(cause, Ev.t, TRUE) ELSE cause
+    /\ UNCHANGED rt
 
 (* silent: the overlapping Remove has wound the old session down, the Add   *)
 (* begins a new incarnation of the target                                   *)
@@ -59,7 +68,7 @@ TSwitch ==
           /\ pend' = [pend EXCEPT ![c].sw = TRUE]
           /\ disc' = Put(disc, pend[c].t, D0)
           /\ inc' = Put(inc, pend[c].t, Get(inc, pend[c].t) + 1)
-    /\ UNCHANGED <<l, active>>
+    /\ UNCHANGED <<l, active, rt, cause>>
 
 TRet ==
     /\ St("ret") /\ Busy(Ev.c) /\ pend[Ev.c].op = Ev.op /\ pend[Ev.c].t = Ev.t
@@ -69,7 +78,9 @@ TRet ==
        \* the Remove ends the incarnation it found; a newer one (an overlapping Add that took effect after it) stays
        /\ active' = IF Ev.op = "Remove" /\ Get(inc, Ev.t) = p.inc0 THEN active \ {Ev.t} ELSE active
     /\ pend' = Put(pend, Ev.c, None)
-    /\ UNCHANGED <<disc, inc>>
+    \* a Reconnect/Remove still in progress when the previous Reset was made may be what ends the next session
+    /\ cause' = IF Ev.op \in {"Reconnect", "Remove"} THEN Put(cause, Ev.t, TRUE) ELSE cause
+    /\ UNCHANGED <<disc, inc, rt>>
 
 TCb ==
     /\ St("cb")
@@ -77,14 +88,22 @@ TCb ==
     /\ LET d == DStep(disc[Ev.t], Ev.k, Ev.id) IN
        /\ d.q # "bad"
        /\ disc' = Put(disc, Ev.t, d)
-    /\ UNCHANGED <<active, pend, inc>>
+    \* a session is not ended for no reason: unless a receive timeout is in force for the target, a Reset needs - since
+    \* the target's previous Reset - the target to have ended a stream, or a Reconnect/Remove of the target (begun or returned)
+    /\ (Ev.k = "reset" => (Get(rt, Ev.t) > 0 \/ CauseOf(Ev.t))) = TRUE
+    \* a Reset uses up what could have caused it
+    /\ cause' = IF Ev.k = "reset" THEN Put(cause, Ev.t, FALSE) ELSE cause
+    /\ UNCHANGED <<active, pend, inc, rt>>
 
 (* scripted-server markers carry no obligation                              *)
-TSrv == St("srv") /\ UNCHANGED <<active, disc, pend, inc>>
+TSrv == /\ St("srv")
+        \* "end": the target ends the stream it has just served (possibly before the manager has looked at its first message)
+        /\ cause' = IF Ev.k = "end" THEN Put(cause, Ev.t, TRUE) ELSE cause
+        /\ UNCHANGED <<active, disc, pend, inc, rt>>
 
-TFinal == St("final") /\ active = {} /\ (\A c \in DOMAIN pend : ~Busy(c)) /\ UNCHANGED <<active, disc, pend, inc>>
+TFinal == St("final") /\ active = {} /\ (\A c \in DOMAIN pend : ~Busy(c)) /\ UNCHANGED <<active, disc, pend, inc, rt, cause>>
 
-TNext == TReset \/ TInv \/ TSwitch \/ TRet \/ TCb \/ TSrv \/ TFinal
+TNext == TReset \/ TCfg \/ TInv \/ TSwitch \/ TRet \/ TCb \/ TSrv \/ TFinal
 TSpec == TInit /\ [][TNext]_tvars
 
 Track == IF l > TLCGet(1) THEN TLCSet(1, l) ELSE TRUE
